@@ -502,6 +502,10 @@ def rule_foldid(repo: Repo) -> RuleResult:
             r.fail(Finding("C02.foldid", f, f"fold-init:or:{ctx}", f"the accumulator of the {ctx} evaluation starts from {unparse(inits[0].value, 60)} whatever the operator is: "
                            f"for 'or' the start value must be False, here a disjunction is true as soon as the (in)equalities hold", node=inits[0],
                            latent=(ctx == "forall" and dead_forall)))
+    if not any(ctx == "forall" for _l, _a, _f, ctx in loops):
+        # the quantified evaluation has no fold of its own that can be read here (it re-enters the shared step function recursively)
+        r.site(f"{f.qn} [forall: evaluated by re-entering the fold of the compound evaluation]")
+        r.ok({"context": "forall", "fold": "shared (recursive)"})
     r.require_sites(2)
     return r
 
